@@ -30,3 +30,7 @@ def run(rep: Report, repo: Repo, tier: str) -> None:
         from . import trace_rules
         with rep.isolated():
             trace_rules.rule_class_traces(rep, repo, "C09-I")
+    # "a macro note iff that definition is a macro": however macro() is capitalised
+    from . import misc_rules as _mr
+    with rep.isolated():
+        _mr.rule_case_folding(rep, repo, "C09-R7")
